@@ -1,4 +1,4 @@
-"""C14 — join and request rate limits hold for every arrival pattern (engine M over src/rate_limit.rs)."""
+"""C14 — join and request rate limits hold for every arrival pattern (engine M over src/rate_limit.rs + Kani prefix kernels)."""
 import os
 import sys
 
@@ -7,9 +7,9 @@ import z3
 sys.path.insert(0, os.path.join(os.path.dirname(os.path.abspath(__file__)), "..", "lib", "mirsym"))
 import harness  # noqa: E402
 from engine import State  # noqa: E402
-from harness import MirCheck, f64, fp_of_uint, fpv, mk_map  # noqa: E402
-from summaries import fresh_instant, mk_time, time_eq, time_le, time_lt, time_sub  # noqa: E402
-from values import VArr, VEnum, VMap, VRef, VStruct, bv, key_bv, vmap  # noqa: E402
+from harness import MirCheck, Src, fp_of_uint, fpv  # noqa: E402
+from summaries import mk_time, time_eq, time_le, time_sub  # noqa: E402
+from values import EnumInfo, VArr, VEnum, VMap, VStruct, bv, flatten, key_bv, vmap  # noqa: E402
 
 F64 = z3.Float64()
 RNE = z3.RNE()
@@ -20,288 +20,364 @@ def dur(secs):
     return mk_time(bv(secs, 64), bv(0, 32), "Duration")
 
 
-def sym_bucket(eng, st, name):
-    tokens = f64(name + ".tokens")
-    riw = z3.BitVec(name + ".riw", 32)
-    lu = fresh_instant(eng, st, name + ".lu")
-    ws = fresh_instant(eng, st, name + ".ws")
-    return VStruct([tokens, lu, riw, ws], "Bucket")
+def in_bucket(src, name):
+    return VStruct([src.f64(name + ".tokens"), src.instant(name + ".lu"), src.bv(name + ".riw", 32), src.instant(name + ".ws")], "Bucket")
+
+
+def bucket_template():
+    z = mk_time(bv(0, 64), bv(0, 32), "Instant")
+    return VStruct([fpv(0.0), z, bv(0, 32), z], "Bucket")
 
 
 def bucket_inv(b, maxr, burst):
     return z3.And(z3.fpGEQ(b.f[0], fpv(0.0)), z3.fpLEQ(b.f[0], fp_of_uint(burst)), z3.ULE(b.f[2], maxr))
 
 
+def bucket_wf(b, prev):
+    """well-formed stored bucket: timestamps not after the last clock reading, nanos in range"""
+    return z3.And(time_le(b.f[1], prev), time_le(b.f[3], prev), z3.ULT(b.f[1].f[1], bv(10**9, 32)), z3.ULT(b.f[3].f[1], bv(10**9, 32)))
+
+
 def cfg_ok(maxr, burst):
     return z3.And(z3.UGE(maxr, 1), z3.ULE(maxr, MAXCFG), z3.UGE(burst, 1), z3.ULE(burst, MAXCFG))
 
 
+def obs_bucket(o):
+    """[tokens_bits, lu_s, lu_ns, riw, ws_s, ws_ns] -> Bucket value"""
+    return VStruct([z3.simplify(z3.fpBVToFP(bv(int(o[0]), 64), F64)), mk_time(bv(int(o[1]), 64), bv(int(o[2]), 32), "Instant"), bv(int(o[3]), 32),
+                    mk_time(bv(int(o[4]), 64), bv(int(o[5]), 32), "Instant")], "Bucket")
+
+
 def step_post(pre, post, admitted, now, maxr, burst, window_s):
-    """the property-level step relation of one attempt on one bucket (see DESIGN 4/C14)"""
+    """the property-level step relation of one attempt on one bucket (DESIGN 4/C14)"""
+    import summaries as S
+
     W = dur(window_s)
     D = time_sub(now, pre.f[3])  # now - window_start (now >= window_start by clock monotonicity)
     rolled_allowed = time_le(W, D)  # a count may only be reset after a full window has elapsed
     one = z3.If(admitted, bv(1, 32), bv(0, 32))
-    count_ok = z3.Or(post.f[2] == pre.f[2] + one, z3.And(rolled_allowed, post.f[2] == one))
-    # a reset also restarts the window at `now`; otherwise the window start is kept
-    win_ok = z3.Or(time_eq(post.f[3], pre.f[3]), z3.And(rolled_allowed, time_eq(post.f[3], now)))
-    no_wrap = z3.ULE(pre.f[2], maxr)
+    # either the attempt is counted in the running window, or (only after a full window) a new window starts at `now` with this attempt
+    count_ok = z3.Or(z3.And(post.f[2] == pre.f[2] + one, time_eq(post.f[3], pre.f[3])),
+                     z3.And(rolled_allowed, post.f[2] == one, time_eq(post.f[3], now)))
+    win_ok = z3.BoolVal(True)
     # built with the same constructors as the engine's summaries so that the solver sees shared sub-terms
-    import summaries as S
     elapsed = S._duration_since(None, None, [now, pre.f[1]], None, "", None)
     e_f = S._as_secs_f64(None, None, [elapsed], None, "", None)
     rate = z3.fpDiv(RNE, fp_of_uint(maxr), S._as_secs_f64(None, None, [W], None, "", None))
-    ub = z3.fpAdd(RNE, pre.f[0], z3.fpMul(RNE, e_f, rate))
-    ub_s = ub  # exact f64 refill formula of the documented rule: tokens + elapsed * (max / window)
-    tokens_ok = z3.And(
-        z3.fpLEQ(post.f[0], z3.If(admitted, z3.fpSub(RNE, ub_s, fpv(1.0)), ub_s)),  # never more than old + refill (- 1 when admitted)
-        z3.fpLEQ(post.f[0], z3.If(admitted, z3.fpSub(RNE, fp_of_uint(burst), fpv(1.0)), fp_of_uint(burst))),
-        z3.fpGEQ(post.f[0], fpv(0.0)),
-    )
+    ub = z3.fpAdd(RNE, pre.f[0], z3.fpMul(RNE, e_f, rate))  # the documented refill rule, in f64
+    tokens_ok = z3.fpLEQ(post.f[0], z3.If(admitted, z3.fpSub(RNE, ub, fpv(1.0)), ub))  # never more than old + refill (- 1 when admitted)
+    cap_ok = z3.And(z3.fpLEQ(post.f[0], z3.If(admitted, z3.fpSub(RNE, fp_of_uint(burst), fpv(1.0)), fp_of_uint(burst))), z3.fpGEQ(post.f[0], fpv(0.0)))
     admitted_needs = z3.Implies(admitted, z3.And(z3.UGE(post.f[2], 1), z3.ULE(post.f[2], maxr)))
     return {
         "invariant_preserved": z3.And(bucket_inv(post, maxr, burst), time_eq(post.f[1], now)),
         "window_count": z3.And(count_ok, win_ok, z3.ULE(post.f[2], maxr)),
         "token_budget": tokens_ok,
+        "token_cap": cap_ok,
         "admission_consumes": admitted_needs,
     }
 
 
-def group_bucket_step(ck, window_s):
-    eng = ck.engine()
-    st = State()
-    b = sym_bucket(eng, st, "b")
-    maxr = z3.BitVec("cfg.max", 32)
-    burst = z3.BitVec("cfg.burst", 32)
-    cfg = VStruct([dur(window_s), maxr, burst], "EngineConfig")
-    rb = eng.alloc(st, b)
-    rc = eng.alloc(st, cfg)
-    prev = fresh_instant(eng, st, "prev")
-    st.clock = prev
-    hyps = [cfg_ok(maxr, burst), bucket_inv(b, maxr, burst), time_le(b.f[1], prev), time_le(b.f[3], prev)]
-    name = ck.fn(r"rate_limit::<impl at [^>]*>::try_consume$")
-    st2, ret = eng.call(name, [rb, rc], st)
-    post = eng.load(st2, rb)
-    now = st2.clock
+def pin_clock(src, eng, st):
+    """name the last clock reading of the run so that it appears in models"""
+    now = st.clock
+    n0 = len(src.hyps)
+    t = mk_time(src.pin("now.s", now.f[0]), src.pin("now.ns", now.f[1]), "Instant")
+    return t, src.hyps[n0:]
+
+
+def clock_freeze_pref(eng):
+    """replay preference: every clock reading taken during the call is the same instant (a legal, non-decreasing clock)"""
+    rs = list(getattr(eng, "clock_readings", []))
+    return [z3.And(a.f[0] == b.f[0], a.f[1] == b.f[1]) for a, b in zip(rs, rs[1:])]
+
+
+# ------------------------------------------------------------------------------------------ A. Bucket::try_consume
+
+def build_bucket_step(ck, window_s, src, obs=None):
+    eng = ck.engine() if obs is None else ck.meta_engine()
+    b = in_bucket(src, "b")
+    maxr, burst = src.bv("cfg.max", 32), src.bv("cfg.burst", 32)
+    prev = src.instant("prev")
+    hyps = list(src.hyps) + [cfg_ok(maxr, burst), bucket_inv(b, maxr, burst), bucket_wf(b, prev)]
+    if obs is None:
+        st = State()
+        cfg = VStruct([dur(window_s), maxr, burst], "EngineConfig")
+        rb, rc = eng.alloc(st, b), eng.alloc(st, cfg)
+        st.clock = prev
+        st2, ret = eng.call(ck.fn(r"rate_limit::<impl at [^>]*>::try_consume$"), [rb, rc], st)
+        post = eng.load(st2, rb)
+        now, ph = pin_clock(src, eng, st2)
+        hyps += ph
+        pc = st2.pc
+    else:
+        ret = z3.BoolVal(bool(obs["ret"]))
+        post = obs_bucket(obs["post"])
+        now = mk_time(src.bv("now.s", 64), src.bv("now.ns", 32), "Instant")
+        pc = z3.BoolVal(True)
     rel = step_post(b, post, ret, now, maxr, burst, window_s)
-    tag = f"bucket_step[w={window_s}]"
-    for k, g in rel.items():
-        ck.prove(f"{tag}/{k}", eng, hyps + [st2.pc], g, on_sat=ck.replayer("bucket_step", {"window_s": window_s}))
-    ck.side(tag, eng, hyps, on_sat=ck.replayer("bucket_step", {"window_s": window_s}))
-    ck.reach(f"{tag}/reach_admit", eng, hyps + [st2.pc], ret)
-    ck.reach(f"{tag}/reach_deny", eng, hyps + [st2.pc], z3.Not(ret))
-    ck.out.samples.append({"obligation": tag, "pre": "arbitrary Bucket with 0<=tokens<=burst, riw<=max, timestamps <= now", "cfg": "1<=max,burst<=1e6",
-                           "post": list(rel)})
+    return {"eng": eng, "hyps": hyps, "goals": {k: z3.Implies(pc, g) for k, g in rel.items()},
+            "reach": {"reach_admit": z3.And(pc, ret), "reach_deny": z3.And(pc, z3.Not(ret))}}
 
 
-def sym_engine(eng, st, name, window_s, kwidth, maxr, burst):
-    gb = sym_bucket(eng, st, name + ".global")
-    m = mk_map(eng, name + ".keyed", kwidth, sym_bucket_template(), cap=100_000)
-    cfg = VStruct([dur(window_s), maxr, burst], "EngineConfig")
-    return VStruct([cfg, gb, m], "Engine")
+# ------------------------------------------------------------------------------------------ assume-guarantee: contract of try_consume
+
+def install_bucket_contract(ck, eng):
+    """In the map-level obligations `Bucket::try_consume` is replaced by its CONTRACT (the step relation that group A proves on the
+    real body for both windows): fresh post-state constrained by the contract, precondition turned into an obligation."""
+    import re as _re
+
+    from summaries import _instant_now, fresh_instant
+    from values import as_int
+
+    def handler(e, st, args, dty, callee, m):
+        rb, rc = args
+        b0 = e.load(st, rb)
+        cfg = e.load(st, rc)
+        w = as_int(cfg.f[0].f[0])
+        if w not in (60, 3600) or as_int(cfg.f[0].f[1]) != 0:
+            raise harness.SymError("try_consume contract used with a window other than 60 s / 3600 s")
+        maxr, burst = cfg.f[1], cfg.f[2]
+        prev = st.clock
+        now = _instant_now(e, st, [], None, callee, m)
+        n = next(e._fresh)
+        b1 = VStruct([z3.FP(f"tc{n}.tokens", F64), now, z3.BitVec(f"tc{n}.riw", 32),
+                      mk_time(z3.BitVec(f"tc{n}.ws.s", 64), z3.BitVec(f"tc{n}.ws.ns", 32), "Instant")], "Bucket")
+        ret = z3.Bool(f"tc{n}.ret")
+        pre = z3.And(cfg_ok(maxr, burst), bucket_inv(b0, maxr, burst), bucket_wf(b0, prev) if prev is not None else z3.BoolVal(True))
+        e.oblige(st, "contract-precondition:Bucket::try_consume", z3.Not(pre), kind="assert")
+        rel = step_post(b0, b1, ret, now, maxr, burst, w)
+        e.assume(z3.Implies(st.pc, z3.And(rel["invariant_preserved"], rel["window_count"], rel["token_cap"], rel["admission_consumes"])))
+        e.store(st, rb, b1)
+        return ret
+
+    eng.summaries.insert(0, (_re.compile(r"^(rate_limit::)?Bucket::try_consume$"), handler,
+                             "CONTRACT Bucket::try_consume (invariant_preserved + window_count + token_cap + admission_consumes, proved on the real body by bucket_step[w=60|3600])"))
 
 
-def sym_bucket_template():
-    return VStruct([fpv(0.0), mk_time(bv(0, 64), bv(0, 32), "Instant"), bv(0, 32), mk_time(bv(0, 64), bv(0, 32), "Instant")], "Bucket")
+# ------------------------------------------------------------------------------------------ B/C. engines with keyed maps
+
+def in_engine(src, name, window_s, kwidth, maxr, burst, probes):
+    gb = in_bucket(src, name + ".global")
+    m = src.map(name + ".keyed", kwidth, bucket_template(), probes, cap=100_000)
+    return VStruct([VStruct([dur(window_s), maxr, burst], "EngineConfig"), gb, m], "Engine")
+
+
+def obs_engine(obs, name, kwidth, probes):
+    gb = obs_bucket(obs[name + ".global"])
+    m = harness.obs_map(obs, name + ".keyed", kwidth, bucket_template(), probes)
+    c = obs[name + ".cfg"]
+    return VStruct([VStruct([mk_time(bv(int(c[0]), 64), bv(int(c[1]), 32), "Duration"), bv(int(c[2]), 32), bv(int(c[3]), 32)], "EngineConfig"), gb, m], "Engine")
 
 
 def map_bucket(m, k):
     return vmap(m.val, lambda a: z3.Select(a, k))
 
 
-def group_engine_key(ck, window_s):
-    """Engine::<K>::try_consume_key with K = Ipv6Addr (128-bit keys): frame property + charged bucket"""
-    eng = ck.engine()
-    st = State()
-    maxr = z3.BitVec("cfg.max", 32)
-    burst = z3.BitVec("cfg.burst", 32)
-    e = sym_engine(eng, st, "E", window_s, 128, maxr, burst)
-    re_ = eng.alloc(st, e)
-    key = VArr([z3.BitVec(f"key.{i}", 8) for i in range(16)])
-    rk = eng.alloc(st, key)
-    k = key_bv(key)
-    prev = fresh_instant(eng, st, "prev")
-    st.clock = prev
-    m0 = e.f[2]
-    b0 = map_bucket(m0, k)
-    pres0 = z3.Select(m0.present, k)
-    hyps = [cfg_ok(maxr, burst), z3.Implies(pres0, z3.And(bucket_inv(b0, maxr, burst), time_le(b0.f[1], prev), time_le(b0.f[3], prev))),
-            z3.ULT(b0.f[1].f[1], bv(10**9, 32)), z3.ULT(b0.f[3].f[1], bv(10**9, 32))]
-    name = ck.fn(r"rate_limit::<impl at [^>]*>::try_consume_key$")
-    st2, ret = eng.call(name, [re_, rk], st)
-    e2 = eng.load(st2, re_)
-    m1 = e2.f[2]
-    b1 = map_bucket(m1, k)
-    now = st2.clock
-    tag = f"engine_key[w={window_s}]"
-    rp = ck.replayer("engine_key", {"window_s": window_s})
-    # other keys are untouched
-    k2 = z3.BitVec("other_key", 128)
-    same = [z3.Select(m1.present, k2) == z3.Select(m0.present, k2)]
-    from values import flatten
-    for a1, a0 in zip(flatten(m1.val), flatten(m0.val)):
-        same.append(z3.Select(a1, k2) == z3.Select(a0, k2))
-    ck.prove(f"{tag}/other_keys_untouched", eng, hyps + [st2.pc, k2 != k], z3.And(*same), on_sat=rp)
-    ck.prove(f"{tag}/global_bucket_untouched", eng, hyps + [st2.pc], z3.And(*[x == y for x, y in zip(flatten(e2.f[1]), flatten(e.f[1]))]), on_sat=rp)
-    ck.prove(f"{tag}/key_is_tracked_afterwards", eng, hyps + [st2.pc], z3.Select(m1.present, k), on_sat=rp)
-    # existing key: full step relation on its bucket
-    rel = step_post(b0, b1, ret, now, maxr, burst, window_s)
-    for kk, g in rel.items():
-        if kk == "token_budget":
-            continue  # decided on Bucket::try_consume itself (same body); through the map arrays the f64 query exceeds the cap
-        ck.prove(f"{tag}/existing_key/{kk}", eng, hyps + [st2.pc, pres0], g, on_sat=rp)
-    # new key: starts from a full bucket, an admission leaves count 1 and burst-1 tokens at most
-    newrel = z3.And(bucket_inv(b1, maxr, burst), b1.f[2] == z3.If(ret, bv(1, 32), bv(0, 32)),
-                    z3.fpLEQ(b1.f[0], z3.If(ret, z3.fpSub(RNE, fp_of_uint(burst), fpv(1.0)), fp_of_uint(burst))),
-                    time_le(b1.f[3], now), time_le(prev, b1.f[3]))
-    ck.prove(f"{tag}/new_key/fresh_bucket_charged", eng, hyps + [st2.pc, z3.Not(pres0)], newrel, on_sat=rp)
-    ck.side(tag, eng, hyps, on_sat=rp)
-    ck.reach(f"{tag}/reach_admit_existing", eng, hyps + [st2.pc, pres0], ret)
-    ck.reach(f"{tag}/reach_deny_existing", eng, hyps + [st2.pc, pres0], z3.Not(ret))
-    ck.reach(f"{tag}/reach_new", eng, hyps + [st2.pc, z3.Not(pres0)], ret)
-    ck.out.samples.append({"obligation": tag, "state": "arbitrary LruCache<Ipv6Addr,Bucket> (SMT arrays), arbitrary 128-bit key", "post": ["other keys untouched", "key tracked", "step relation"]})
+def _leaf_eq(x, y):
+    if z3.is_fp(x):
+        return z3.Or(z3.fpEQ(x, y), z3.And(z3.fpIsNaN(x), z3.fpIsNaN(y)))
+    return x == y
 
 
-IPADDR = None
+def same_value(v0, v1):
+    return z3.And(*[_leaf_eq(x, y) for x, y in zip(flatten(v1), flatten(v0))])
 
 
-def sym_limiter(eng, st, cfg5):
-    """arbitrary JoinRateLimiter whose four engines carry the configs JoinRateLimiter::new derives from `cfg5`"""
-    c64, c48, c24, gmax, gburst = cfg5
-    config = VStruct([c64, c48, c24, gmax, gburst], "JoinRateLimiterConfig")
-    e64 = sym_engine(eng, st, "L.e64", 3600, 128, c64, c64)
-    e48 = sym_engine(eng, st, "L.e48", 3600, 128, c48, c48)
-    e24 = sym_engine(eng, st, "L.e24", 3600, 32, c24, c24)
-    eg = sym_engine(eng, st, "L.eg", 60, 8, gmax, gburst)
-    return VStruct([config, e64, e48, e24, eg], "JoinRateLimiter")
+def same_bucket_at(m0, m1, k):
+    return z3.And(z3.Select(m1.present, k) == z3.Select(m0.present, k), z3.Implies(z3.Select(m0.present, k), same_value(map_bucket(m0, k), map_bucket(m1, k))))
 
 
-def engine_key_hyps(e, k, prev):
+def key_hyps(e, k, prev):
     m = e.f[2]
     b = map_bucket(m, k)
-    pres = z3.Select(m.present, k)
     maxr, burst = e.f[0].f[1], e.f[0].f[2]
-    return z3.And(z3.Implies(pres, z3.And(bucket_inv(b, maxr, burst), time_le(b.f[1], prev), time_le(b.f[3], prev))),
-                  z3.ULT(b.f[1].f[1], bv(10**9, 32)), z3.ULT(b.f[3].f[1], bv(10**9, 32)))
+    return z3.And(z3.Implies(z3.Select(m.present, k), bucket_inv(b, maxr, burst)), bucket_wf(b, prev))
 
 
-def charged(e0, e1, k, admitted):
-    """bucket of key k in engine e was charged by one admitted attempt (count +1 within the window, or restarted at 1)"""
+def charged(e0, e1, k):
+    """bucket of key k was charged by one admitted attempt (count +1 within the window, or restarted at 1), never above max"""
     m0, m1 = e0.f[2], e1.f[2]
     b0, b1 = map_bucket(m0, k), map_bucket(m1, k)
     pres0 = z3.Select(m0.present, k)
     maxr = e0.f[0].f[1]
-    return z3.And(z3.Select(m1.present, k), z3.UGE(b1.f[2], 1), z3.ULE(b1.f[2], maxr),
-                  z3.Or(z3.And(pres0, b1.f[2] == b0.f[2] + 1), b1.f[2] == 1))
+    return z3.And(z3.Select(m1.present, k), z3.UGE(b1.f[2], 1), z3.ULE(b1.f[2], maxr), z3.Or(z3.And(pres0, b1.f[2] == b0.f[2] + 1), b1.f[2] == 1))
 
 
-def engine_unchanged(e0, e1):
-    from values import flatten
-    return z3.And(*[x == y for x, y in zip(flatten(e0), flatten(e1))])
-
-
-def engine_unchanged_except(e0, e1, k, k2):
-    """maps agree at every key k2 != k (k2 fresh)"""
-    from values import flatten
-    m0, m1 = e0.f[2], e1.f[2]
-    conj = [z3.Select(m1.present, k2) == z3.Select(m0.present, k2)]
-    for a1, a0 in zip(flatten(m1.val), flatten(m0.val)):
-        conj.append(z3.Select(a1, k2) == z3.Select(a0, k2))
-    return z3.Implies(k2 != k, z3.And(*conj))
+def build_engine_key(ck, window_s, src, obs=None):
+    eng = ck.engine() if obs is None else ck.meta_engine()
+    maxr, burst = src.bv("cfg.max", 32), src.bv("cfg.burst", 32)
+    key = src.bytes("key", 16)
+    k = key_bv(key)
+    k2 = key_bv(src.bytes("other", 16))
+    probes = {"cand": k, "other": k2}
+    prev = src.instant("prev")
+    e = in_engine(src, "E", window_s, 128, maxr, burst, probes)
+    m0 = e.f[2]
+    b0 = map_bucket(m0, k)
+    pres0 = z3.Select(m0.present, k)
+    hyps = list(src.hyps) + [cfg_ok(maxr, burst), key_hyps(e, k, prev), key_hyps(e, k2, prev), bucket_wf(e.f[1], prev)]
+    if obs is None:
+        st = State()
+        re_, rk = eng.alloc(st, e), eng.alloc(st, key)
+        st.clock = prev
+        eng.clock_readings = []
+        install_bucket_contract(ck, eng)
+        st2, ret = eng.call(ck.fn(r"rate_limit::<impl at [^>]*>::try_consume_key$"), [re_, rk], st)
+        e2 = eng.load(st2, re_)
+        now, ph = pin_clock(src, eng, st2)
+        hyps += ph
+        pc = st2.pc
+    else:
+        ret = z3.BoolVal(bool(obs["ret"]))
+        e2 = obs_engine(obs, "E", 128, probes)
+        now = mk_time(src.bv("now.s", 64), src.bv("now.ns", 32), "Instant")
+        pc = z3.BoolVal(True)
+    m1 = e2.f[2]
+    b1 = map_bucket(m1, k)
+    G = {}
+    G["other_keys_untouched"] = z3.Implies(k2 != k, same_bucket_at(m0, m1, k2))
+    G["global_bucket_and_config_untouched"] = z3.And(same_value(e.f[1], e2.f[1]), same_value(e.f[0], e2.f[0]))
+    G["key_is_tracked_afterwards"] = z3.Select(m1.present, k)
+    rel = step_post(b0, b1, ret, now, maxr, burst, window_s)
+    for kk, g in rel.items():
+        if kk == "token_budget":
+            continue  # decided on Bucket::try_consume itself; at this level try_consume is represented by its contract
+        G[f"existing_key/{kk}"] = z3.Implies(pres0, g)
+    G["new_key/fresh_bucket_charged"] = z3.Implies(z3.Not(pres0), z3.And(
+        bucket_inv(b1, maxr, burst), b1.f[2] == z3.If(ret, bv(1, 32), bv(0, 32)),
+        z3.fpLEQ(b1.f[0], z3.If(ret, z3.fpSub(RNE, fp_of_uint(burst), fpv(1.0)), fp_of_uint(burst))), time_le(b1.f[3], now), time_le(prev, b1.f[3])))
+    return {"eng": eng, "hyps": hyps, "goals": {g: z3.Implies(pc, f) for g, f in G.items()},
+            "reach": {"reach_admit_existing": z3.And(pc, pres0, ret), "reach_deny_existing": z3.And(pc, pres0, z3.Not(ret)), "reach_new": z3.And(pc, z3.Not(pres0), ret)}}
 
 
 def mask(ipbv, keep_bytes, total_bytes):
-    w = total_bytes * 8
-    m = ((1 << (keep_bytes * 8)) - 1) << ((total_bytes - keep_bytes) * 8)
-    return ipbv & bv(m, w)
+    return ipbv & bv(((1 << (keep_bytes * 8)) - 1) << ((total_bytes - keep_bytes) * 8), total_bytes * 8)
 
 
-def group_join_step(ck, v6):
-    eng = ck.engine()
-    st = State()
-    cfg5 = [z3.BitVec(n, 32) for n in ("cfg.per64", "cfg.per48", "cfg.per24", "cfg.gmax", "cfg.gburst")]
-    L = sym_limiter(eng, st, cfg5)
-    rl = eng.alloc(st, L)
-    from values import EnumInfo
+ENG = [("e64", 3600, 128), ("e48", 3600, 128), ("e24", 3600, 32), ("eg", 60, 8)]
+
+
+def build_join_step(ck, v6, src, obs=None):
+    eng = ck.engine() if obs is None else ck.meta_engine()
+    cfg5 = [src.bv(n, 32) for n in ("cfg.per64", "cfg.per48", "cfg.per24", "cfg.gmax", "cfg.gburst")]
+    ipb = src.bytes("ip", 16 if v6 else 4)
+    ipbv = key_bv(ipb)
     info = EnumInfo("IpAddr", ["V4", "V6"])
-    if v6:
-        ipb = [z3.BitVec(f"ip.{i}", 8) for i in range(16)]
-        ip = VEnum(info, bv(1, 8), {1: (VArr(ipb),)})
+    ip = VEnum(info, bv(1 if v6 else 0, 8), {(1 if v6 else 0): (ipb,)})
+    prev = src.instant("prev")
+    cand = {"e64": mask(ipbv, 8, 16) if v6 else None, "e48": mask(ipbv, 6, 16) if v6 else None, "e24": None if v6 else mask(ipbv, 3, 4), "eg": bv(0, 8)}
+    other = {"e64": key_bv(src.bytes("other.e64", 16)), "e48": key_bv(src.bytes("other.e48", 16)), "e24": key_bv(src.bytes("other.e24", 4)), "eg": src.bv("other.eg", 8)}
+    cfgs = {"e64": (cfg5[0], cfg5[0]), "e48": (cfg5[1], cfg5[1]), "e24": (cfg5[2], cfg5[2]), "eg": (cfg5[3], cfg5[4])}
+    E0 = {}
+    probes = {}
+    for (n, w, kw) in ENG:
+        probes[n] = {"other": other[n]}
+        if cand[n] is not None:
+            probes[n]["cand"] = cand[n]
+        E0[n] = in_engine(src, "L." + n, w, kw, cfgs[n][0], cfgs[n][1], probes[n])
+    hyps = list(src.hyps) + [z3.And(*[z3.And(z3.UGE(c, 1), z3.ULE(c, MAXCFG)) for c in cfg5])]
+    for (n, w, kw) in ENG:
+        hyps.append(bucket_wf(E0[n].f[1], prev))
+        for k in probes[n].values():
+            hyps.append(key_hyps(E0[n], k, prev))
+    if obs is None:
+        st = State()
+        config = VStruct(cfg5, "JoinRateLimiterConfig")
+        L = VStruct([config, E0["e64"], E0["e48"], E0["e24"], E0["eg"]], "JoinRateLimiter")
+        rl, rip = eng.alloc(st, L), eng.alloc(st, ip)
+        st.clock = prev
+        eng.clock_readings = []
+        install_bucket_contract(ck, eng)
+        st2, ret = eng.call(ck.fn(r"rate_limit::<impl at [^>]*>::check_join_allowed$"), [rl, rip], st)
+        L2 = eng.load(st2, rl)
+        E1 = {"e64": L2.f[1], "e48": L2.f[2], "e24": L2.f[3], "eg": L2.f[4]}
+        cfg_same = same_value(L.f[0], L2.f[0])
+        okk = ret.idx == bv(0, 8)
+        _, ph = pin_clock(src, eng, st2)
+        hyps += ph
+        pc = st2.pc
     else:
-        ipb = [z3.BitVec(f"ip.{i}", 8) for i in range(4)]
-        ip = VEnum(info, bv(0, 8), {0: (VArr(ipb),)})
-    rip = eng.alloc(st, ip)
-    ipbv = key_bv(VArr(ipb))
-    prev = fresh_instant(eng, st, "prev")
-    st.clock = prev
-    hyps = [z3.And(*[z3.And(z3.UGE(c, 1), z3.ULE(c, MAXCFG)) for c in cfg5])]
-    k0 = bv(0, 8)
-    hyps.append(engine_key_hyps(L.f[4], k0, prev))
-    if v6:
-        k64, k48 = mask(ipbv, 8, 16), mask(ipbv, 6, 16)
-        hyps += [engine_key_hyps(L.f[1], k64, prev), engine_key_hyps(L.f[2], k48, prev)]
-    else:
-        k24 = mask(ipbv, 3, 4)
-        hyps.append(engine_key_hyps(L.f[3], k24, prev))
-    name = ck.fn(r"rate_limit::<impl at [^>]*>::check_join_allowed$")
-    st2, ret = eng.call(name, [rl, rip], st)
-    L2 = eng.load(st2, rl)
-    okk = ret.idx == bv(0, 8)
-    tag = "join_step[v6]" if v6 else "join_step[v4]"
-    rp = ck.replayer("join_step", {"v6": v6})
-    H = hyps + [st2.pc]
-    o128 = z3.BitVec("other128", 128)
-    o32 = z3.BitVec("other32", 32)
-    o8 = z3.BitVec("other8", 8)
-    if v6:
-        ck.prove(f"{tag}/ok_charges_global_and_64_and_48", eng, H + [okk],
-                 z3.And(charged(L.f[4], L2.f[4], k0, True), charged(L.f[1], L2.f[1], k64, True), charged(L.f[2], L2.f[2], k48, True)), on_sat=rp)
-        ck.prove(f"{tag}/only_own_prefix_buckets_touched", eng, H,
-                 z3.And(engine_unchanged_except(L.f[1], L2.f[1], k64, o128), engine_unchanged_except(L.f[2], L2.f[2], k48, o128),
-                        engine_unchanged(L.f[3], L2.f[3]), engine_unchanged_except(L.f[4], L2.f[4], k0, o8)), on_sat=rp)
-    else:
-        ck.prove(f"{tag}/ok_charges_global_and_24", eng, H + [okk], z3.And(charged(L.f[4], L2.f[4], k0, True), charged(L.f[3], L2.f[3], k24, True)), on_sat=rp)
-        ck.prove(f"{tag}/only_own_prefix_buckets_touched", eng, H,
-                 z3.And(engine_unchanged_except(L.f[3], L2.f[3], k24, o32), engine_unchanged(L.f[1], L2.f[1]), engine_unchanged(L.f[2], L2.f[2]),
-                        engine_unchanged_except(L.f[4], L2.f[4], k0, o8)), on_sat=rp)
-    # a denial never resets or lowers a count without a window roll, and never raises tokens above burst: per-bucket invariants hold after any outcome
-    levels = [("global", L.f[4], L2.f[4], k0)] + ([("per64", L.f[1], L2.f[1], k64), ("per48", L.f[2], L2.f[2], k48)] if v6 else [("per24", L.f[3], L2.f[3], k24)])
-    for (lname, e0, e1, k) in levels:
-        b1 = map_bucket(e1.f[2], k)
-        ck.prove(f"{tag}/bucket_invariant_after_any_outcome[{lname}]", eng, H,
-                 z3.Implies(z3.Select(e1.f[2].present, k), bucket_inv(b1, e0.f[0].f[1], e0.f[0].f[2])), on_sat=rp)
-    ck.prove(f"{tag}/config_unchanged", eng, H, engine_unchanged(L.f[0], L2.f[0]), on_sat=rp)
-    ck.side(tag, eng, hyps, on_sat=rp)
-    ck.reach(f"{tag}/reach_ok", eng, H, okk)
-    ck.reach(f"{tag}/reach_denied", eng, H, z3.Not(okk))
-    ck.out.samples.append({"obligation": tag, "state": "arbitrary JoinRateLimiter (4 engines, SMT-array maps)", "input": "arbitrary address",
-                           "post": ["Ok => global, /64 and /48 (or /24) buckets of exactly the masked prefix are charged", "no other key touched"]})
+        E1 = {n: obs_engine(obs, "L." + n, kw, probes[n]) for (n, w, kw) in ENG}
+        cfg_same = z3.And(*[bv(int(x), 32) == c for x, c in zip(obs["L.config"], cfg5)])
+        okk = z3.BoolVal(bool(obs["ok"]))
+        pc = z3.BoolVal(True)
+    used = [n for (n, _, _) in ENG if cand[n] is not None]
+    G = {}
+    G["ok_charges_global_and_every_prefix_level_of_the_address"] = z3.Implies(okk, z3.And(*[charged(E0[n], E1[n], cand[n]) for n in used]))
+    fr = []
+    for (n, w, kw) in ENG:
+        m0, m1 = E0[n].f[2], E1[n].f[2]
+        if cand[n] is not None:
+            fr.append(z3.Implies(other[n] != cand[n], same_bucket_at(m0, m1, other[n])))
+        else:
+            fr.append(same_bucket_at(m0, m1, other[n]))
+        fr.append(same_value(E0[n].f[1], E1[n].f[1]))  # the engines' own `global` buckets are not used by the join limiter
+        fr.append(same_value(E0[n].f[0], E1[n].f[0]))
+    G["only_the_addresses_own_prefix_buckets_are_touched"] = z3.And(*fr)
+    for n in used:
+        b1 = map_bucket(E1[n].f[2], cand[n])
+        G[f"bucket_invariant_after_any_outcome[{n}]"] = z3.Implies(z3.Select(E1[n].f[2].present, cand[n]), bucket_inv(b1, cfgs[n][0], cfgs[n][1]))
+        b0 = map_bucket(E0[n].f[2], cand[n])
+        G[f"counts_only_grow_within_a_window[{n}]"] = z3.Implies(
+            z3.And(z3.Select(E0[n].f[2].present, cand[n]), z3.Select(E1[n].f[2].present, cand[n]), time_eq(b1.f[3], b0.f[3])), z3.UGE(b1.f[2], b0.f[2]))
+    G["config_unchanged"] = cfg_same
+    return {"eng": eng, "hyps": hyps, "goals": {g: z3.Implies(pc, f) for g, f in G.items()},
+            "reach": {"reach_ok": z3.And(pc, okk), "reach_denied": z3.And(pc, z3.Not(okk))}}
+
+
+def register(ck, tag, driver, params, builder):
+    src = Src()
+    R = builder(src, None)
+    rp = harness.make_replayer(ck, "rate_limit", driver, lambda s, obs: builder(s, obs)["goals"], params)
+    ck.register_src(driver, params, src)
+    prefs = clock_freeze_pref(R["eng"])
+    for g, f in R["goals"].items():
+        ck.prove(f"{tag}/{g}", R["eng"], R["hyps"], f, on_sat=rp, meta={"goal": g, "prefer": prefs})
+    for g, f in R["reach"].items():
+        ck.reach(f"{tag}/{g}", R["eng"], R["hyps"], f)
+    ck.side(f"{tag}/side", R["eng"], R["hyps"], on_sat=rp)
+    ck.out.samples.append({"obligation": tag, "goals": list(R["goals"])})
+
+
+def builder_for(ck, driver, params):
+    if driver == "bucket_step":
+        return lambda s, obs: build_bucket_step(ck, params["window_s"], s, obs)
+    if driver == "engine_key":
+        return lambda s, obs: build_engine_key(ck, params["window_s"], s, obs)
+    return lambda s, obs: build_join_step(ck, params["v6"], s, obs)
 
 
 def run(tier):
     ck = MirCheck("C14", tier)
-    import c14_replay
-
-    ck.replayer = lambda kind, params: c14_replay.make(ck, kind, params)
     for w in (3600, 60):
-        ck.guarded(f"bucket_step[w={w}]", lambda w=w: group_bucket_step(ck, w))
-    ck.guarded("engine_key[w=3600]", lambda: group_engine_key(ck, 3600))
-    ck.guarded("join_step[v6]", lambda: group_join_step(ck, True))
-    ck.guarded("join_step[v4]", lambda: group_join_step(ck, False))
+        p = {"window_s": w}
+        ck.guarded(f"bucket_step[w={w}]", lambda p=p, w=w: register(ck, f"bucket_step[w={w}]", "bucket_step", p, builder_for(ck, "bucket_step", p)))
+    p = {"window_s": 3600}
+    ck.guarded("engine_key[w=3600]", lambda: register(ck, "engine_key[w=3600]", "engine_key", p, builder_for(ck, "engine_key", p)))
+    for v6 in (True, False):
+        pp = {"v6": v6}
+        t = "join_step[v6]" if v6 else "join_step[v4]"
+        ck.guarded(t, lambda pp=pp, t=t: register(ck, t, "join_step", pp, builder_for(ck, "join_step", pp)))
     ck.run_queries()
+    import kanicheck
+
+    kanicheck.discharge(ck.out, "rate_limit", {"c14_prefix_helpers": "extract_ipv6_subnet_{64,48,32} / extract_ipv4_subnet_24 are exact byte masks for every address"},
+                        timeout_s=900, logname="c14-kani-" + tier)
     ck.out.bounds = [
         "Bucket::try_consume: one step from an arbitrary bucket (0<=tokens<=burst finite f64, count<=max, timestamps<=now), cfg 1<=max,burst<=1e6, window in {60s,3600s} (the two the limiter constructs)",
-        "Engine::try_consume_key: arbitrary LruCache contents as SMT arrays over 128-bit keys, arbitrary key, below the 100k-key LRU bound",
+        "Engine::try_consume_key / JoinRateLimiter::check_join_allowed: one call from an ARBITRARY limiter state: LruCaches as SMT arrays over 128/32/8-bit keys, arbitrary address, below the 100k-key LRU bound",
         "clock: arbitrary non-decreasing Instants, seconds < 2^40",
+        "Kani: prefix helpers for all 2^128 / 2^32 addresses (unwind 18)",
     ]
     ck.out.outside = ["concurrent callers (locks are identity)", "LRU eviction at 100k keys", "validation::RateLimiter::check_ip and TransportHandle listener wiring (async)",
-                      "symbolic window lengths other than 60 s / 3600 s"]
-    ck.out.assumptions = ["single-threaded execution", "refill upper bound is the documented formula tokens + elapsed_secs_f64 * (max as f64 / window_secs_f64) evaluated in f64 round-to-nearest"]
+                      "symbolic window lengths other than 60 s / 3600 s",
+                      "multi-step arrival sequences are covered by induction over the one-step relations (bucket invariant + count/window relation), not unrolled"]
+    ck.out.assumptions = ["single-threaded execution",
+                          "assume-guarantee: inside try_consume_key / check_join_allowed the callee Bucket::try_consume is represented by its contract; the contract is proved on the real body by the bucket_step obligations of the same run, its precondition is an obligation at every call site", "refill upper bound is the documented formula tokens + elapsed_secs_f64 * (max as f64 / window_secs_f64) evaluated in f64 round-to-nearest"]
     ck.out.trusted.append("z3 4.8.12 / z3 5.1 / cvc5 1.0 portfolio")
+    ck.out.trusted.append("Kani 0.68 / CBMC 6.11 for the prefix kernel")
     return ck.finish("./check C14 --tier " + tier)
 
 
 def replay(path):
-    import c14_replay
-
-    return c14_replay.replay_file(path)
+    return harness.replay_file(path, lambda ck, driver, params: (lambda s, obs: builder_for(ck, driver, params)(s, obs)["goals"]))
